@@ -214,7 +214,9 @@ def run(ctx):
             ctx.broke("translator validation mismatch (Gen_ranges vs derive_condition_node_type)", tcases[i])
 
     # ---------- oracle: the documented ranges, on derive_condition_node_type and on the extraction of a one-key list / tree
+    n_range = 0
     for n_ in sorted(set(range(0, 3001)) | {int(k) for k in LARGE_KEYS}):
+        n_range += 1
         k = str(n_)
         cat = doc_category(n_)
         inp = {"kind": "key", "key": k}
@@ -425,7 +427,7 @@ def run(ctx):
         ctx.broke("correspondence mismatch (generate_possible_content_evaluation_results, ordered lists)", json.dumps(gmeta[i], ensure_ascii=False))
 
     ctx.notes["correspondence"] = corr
-    ctx.notes["oracle"] = {"keys_checked_against_documented_ranges": 3001 + len(LARGE_KEYS), "expressions_once_ascending": len(exprs_valid), "unions": n_union,
+    ctx.notes["oracle"] = {"keys_checked_against_documented_ranges": n_range, "expressions_once_ascending": len(exprs_valid), "unions": n_union,
                            "resolutions": n_res, "generate_extracts": len(gcases)}
     ctx.notes["input_distribution"] = {"tokens_per_expression": dict(sorted(sizes.items()))}
     ctx.coverage["distinct_nontrivial"] = nontrivial
